@@ -176,8 +176,12 @@ def finish_cases(out, pid, sel, cases, meta, mods, bindir, work, extra_checks=No
         discrepancies.extend(extra_checks(raw))
     drift = {}
     seen_v, seen_k = set(), {}
+    breakdown = {}
     for cid, kind, detail in discrepancies:
         m = meta[cid]
+        if kind in PROPERTY_LEVEL:
+            bk = f"{m['case']['prog']}/{m['case']['var']}: {kind}" + (f" in {detail.get('rel')}" if isinstance(detail, dict) and detail.get('rel') else "")
+            breakdown[bk] = breakdown.get(bk, 0) + 1
         if kind not in PROPERTY_LEVEL:
             drift[kind] = drift.get(kind, 0) + 1
             continue
@@ -195,6 +199,8 @@ def finish_cases(out, pid, sel, cases, meta, mods, bindir, work, extra_checks=No
         out.violation(rec)
     for fid, (f, n) in seen_k.items():
         out.known.append((fid, f"{f['what']} ({n} cases in this run)"))
+    if breakdown:
+        out.extra["property_level_discrepancies"] = dict(sorted(breakdown.items()))
     if drift:
         out.extra["drift"] = drift
     out.extra["discrepancies"] = len(discrepancies)
